@@ -384,7 +384,7 @@ fn audit() -> serde_json::Value {
       {"class": 8, "topic": "node-global state", "covered": "the shard's Lamport clock is shared by all its keys: keys of one shard and of different shards; the vector clock in causal mode", "open": ""},
       {"class": 9, "topic": "observations", "covered": "the stamp of every delta handed back, full snapshots, what a peer holding everything serves after merging the post-restart write, that non-writing mailbox messages leave the replication state alone", "open": ""},
       {"class": 10, "topic": "finding signatures", "covered": "stale stamps are signed by the provenance of the stamp that was not exceeded (local / remote / recovered-checkpoint / recovered-delta); the overflow finding fires only in the boundary case", "open": ""},
-      {"class": 11, "topic": "harness fragility", "covered": "coverage counters must be positive in the run that claims them; source scans that fail or come out short are violations; the arithmetic of the build (checked / wrapping) is observed, not assumed; session 4: the stamp-site scan counts code only (comments stripped) and fails only for MORE sites than the model's table (fewer = call sites folded into a private helper); a persistent server that does not start, does not answer, or whose persisted state cannot be read back is a violation of its own", "open": ""},
+      {"class": 11, "topic": "harness fragility", "covered": "coverage counters must be positive in the run that claims them; source scans that fail or come out short are violations; the arithmetic of the build (checked / wrapping) is observed, not assumed; session 4: the stamp-site scan counts code only (comments stripped) and fails only for MORE sites than the model's table (fewer = call sites folded into a private helper); round 2: the unit of every source scan is the MODULE TREE of the anchored file (child modules declared with `mod x;`, library code only), every stamp pattern is counted in every tree, the violation names the new site (file:line, enclosing fn), a declared child module that cannot be read is a violation, a new pub fn nothing in the crate names is listed, not a violation; a persistent server that does not start, does not answer, or whose persisted state cannot be read back is a violation of its own", "open": ""},
       {"class": "session-4", "topic": "what session 4 added",
        "covered": "entry path: main() of bin/server_persistent.rs — compiled from its source text as the harness binary rvpersist and run as a child process: three incarnations over the same data / WAL directories (SIGKILL, SIGINT, SIGKILL), RESP writes with unique payloads, stamps read back from the WAL (WalRotator::recover_all_entries → to_delta) and the object store (RecoveryManager::recover), per-shard monotonicity across both restarts; history shapes: segment flushed / not flushed before the crash, a 300-write run, the object store lost after the first incarnation (recovery from the WAL alone: every entry replayed once, no +1-per-replay slack), recovery in TWO apply_recovered_state calls with an overlapping WAL part in the system histories; comparisons: remote stamps at 2^31, 2^32±1, 2^53, 2^63 and around a large clock",
        "open": "the gossip listener / gossip loop of the binary (replication is off in the boot histories); S3 store"},
